@@ -188,8 +188,28 @@ pub fn run_section_progs(sid: &str, tag: &Value, section: &[u8], progs: &[Vec<PO
     n
 }
 
+/// A section of 4 GiB and more: `head` followed by zero bytes up to gib * 2^30 + extra bytes in
+/// all (allocated zeroed; only the head is ever touched by a correct cursor's first items). The
+/// first k items are logged; the specification is given the head and the first m zeros.
+pub fn run_huge(sid: &str, tag: &Value, head: &[u8], gib: u64, extra: u64, k: usize, out: &mut dyn Write) -> usize {
+    let total = ((gib << 30) + extra) as usize;
+    let m = 3 * (k + 3);
+    let r = guard(|| {
+        let mut big = vec![0u8; total.max(head.len())];
+        big[..head.len()].copy_from_slice(head);
+        let items: Vec<Value> = TypeLengthValues::from(&big[..]).take(k).map(|r| strip(tlv_item(Some(r)))).collect();
+        json!({"k": "ok", "items": items})
+    })
+    .unwrap_or_else(|p| panic_value(&p));
+    writeln!(out, "{}", json!({"fam": "tlv", "sid": sid, "op": "TlvHuge", "tag": tag, "head": rl(head), "m": m, "gib": gib, "extra": extra, "k": k, "r": r})).unwrap();
+    1
+}
+
 pub fn run_scenario(v: &Value, idx: usize, out: &mut dyn Write) -> usize {
     let sid = v["sid"].as_str().map(|s| s.to_string()).unwrap_or(format!("scn-{}", idx));
+    if let Some(h) = v.get("huge") {
+        return run_huge(&sid, v.get("tag").unwrap_or(&json!({"g": "scenario"})), &unrl(&h["head"]), h["gib"].as_u64().unwrap_or(4), h["extra"].as_u64().unwrap_or(0), h["k"].as_u64().unwrap_or(4) as usize, out);
+    }
     let sec = unrl(&v["sec"]);
     let progs: Vec<Vec<POp>> = v
         .get("progs")
@@ -295,6 +315,21 @@ pub fn generate(name: &str, count: usize, rng: &mut Rng, out: &mut dyn Write) ->
                     progs.push(prog);
                 }
                 n += run_section_progs(&format!("tlvprog-{}", i), &json!({"g": "tlvprog"}), &sec, &progs, out);
+            }
+        }
+        // sections of 4 GiB and more whose length modulo 2^32 is smaller than / equal to / just above
+        // the size of the first item
+        "tlvhuge" => {
+            for i in 0..count {
+                let k = 1 + (i % 3);
+                let mut head = Vec::new();
+                for j in 0..k {
+                    head.extend(item(1 + j as u8, *rng.pick(&[0usize, 1, 4, 9, 300]), 0xA0 + j as u8));
+                }
+                let first = 3 + u16::from_be_bytes([head[1], head[2]]) as u64;
+                let extra = *rng.pick(&[0u64, 1, 2, 3, first - 1, first, first + 1, head.len() as u64, head.len() as u64 + 1]);
+                let gib = if i % 4 == 3 { 8 } else { 4 };
+                n += run_huge(&format!("tlvhuge-{}", i), &json!({"g": "tlvhuge"}), &head, gib, extra, k + 3, out);
             }
         }
         other => panic!("unknown tlv generator {}", other),
